@@ -79,10 +79,11 @@ func main() {
 			}
 			json.Unmarshal(b, &doc)
 			if def.Replay == nil {
-				fmt.Printf("BROKEN: property=%s has no replay entry point\n", id)
-				os.Exit(2)
+				vf.GenericReplay(c, b)
+				os.Exit(0)
 			}
 			def.Replay(c, doc.Replay)
+			os.Exit(0)
 		} else {
 			def.Run(c)
 		}
